@@ -1,6 +1,7 @@
 package props
 
 import (
+	"strings"
 	"testing"
 
 	"pgregory.net/rapid"
@@ -25,7 +26,8 @@ func docOpts(c *core.Ctx) *docs.Opts {
 func stringProfile(c *core.Ctx) *sgen.Profile {
 	return &sgen.Profile{
 		MaxDepth: 2, MinProps: 3, MaxProps: 7, MinDefs: 1, MaxDefs: 3, ArrayDepth: 1,
-		WString: 10, WRef: 5, WArray: 2, WObject: 1, WInteger: 1,
+		UnmappedFormats: true,
+		WString:         10, WRef: 5, WArray: 2, WObject: 1, WInteger: 1,
 		DefWeights:  map[string]int{"string": 5, "object": 1},
 		PConstraint: 0.6, PNullable: 0.3, PRequired: 0.5,
 		Avoid: c.Avoid, Excluded: c.ExcludedMap(), Sat: docs.Satisfiable,
@@ -56,10 +58,25 @@ func TestC06(t *testing.T) {
 			addCollidingDefs(rt, c, f, "string")
 		}
 		addOptionalDefaults(rt, c, f, 0.25, o)
+		var scen []string
+		if rapid.IntRange(0, 3).Draw(rt, "mergeoverlay") == 0 {
+			scen = addMergeOverlayScenario(rt, c, f, "string")
+		}
 		cfg := baseConfig()
 		cs := caseOf(cfg, []string{f.RelPath}, f)
 		countShapes(c, f, cs.Config)
 		jobs := buildJobs(rt, c, f.Root, progRoot, plan, o, cs)
+		if len(scen) > 0 {
+			// the overlay list itself is C11's business: drop the documents that carry it, judge the
+			// definition used on its own
+			var kept []core.Job
+			for _, j := range jobs {
+				if !strings.Contains(j.Doc, `"astrict"`) && !strings.Contains(j.Doc, `"zzstrict"`) {
+					kept = append(kept, j)
+				}
+			}
+			jobs = append(kept, scenarioOnlyJobs(rt, c, f.Root, scen, map[string]bool{"string": true, "required": true}, o)...)
+		}
 		rc := &RunCase{Case: cs, Jobs: jobs, Model: modelIfSingle(cs, f)}
 		c.Sample(sampleOf(cs, jobs))
 		countStringShapes(c, f)
